@@ -25,6 +25,7 @@ CONSTANTS
   AllowNested = FALSE
   OthersCall = "never"
   KeepPagesWritable = FALSE
+  TrampFlushed = TRUE
   MaxEvents = 40
   MaxInst = 2
 INVARIANT Emit
